@@ -17,7 +17,7 @@ LEVEL_NOTE = ('per-edge differential check: whole-project target sets, install/t
 HARNESS = 'vpx.harness.c06'
 FUNCTIONS = ['bfg9000.builtins.compile.object_file/CompileSource/_get_flags/make_compile/'
              'ninja_compile/compdb_compile', 'bfg9000.builtins.link.executable/DynamicLink/'
-             'make_link/ninja_link/compdb_link', 'bfg9000.builtins.command.build_step/BuildStep/'
+             'make_link/ninja_link/compdb_link', 'bfg9000.builtins.copy_file.copy_file/CopyFile/make_copy_file/ninja_copy_file/compdb_copy_file', 'bfg9000.builtins.command.build_step/BuildStep/'
              'make_command/ninja_command/compdb_command', 'bfg9000.backends.make.writer.flags_vars/'
              'multitarget_rule', 'Makefile.define/_write_variable', 'NinjaFile.rule/build/'
              '_write_variable/write', 'bfg9000.backends.ninja.writer.write', 'bfg9000.backends.compdb.writer.CompDB.append/_stringify',
@@ -33,7 +33,7 @@ def bounds(tier):
     q = tier == 'quick'
     return {'string_length': '0..%d' % (1 if q else 2), 'alphabet': 'all Unicode except NUL, CR, LF',
             'edges': ['compile (object_file with per-target and global options)',
-                      'link (executable with link option)', 'build_step (list-form command)', 'link with a project static library and a global link option', 'whole build.ninja (file-scope variable order) for a compile edge with global include dir/option', 'compile edge built as a prerequisite of an edge with its own options (Make hands target-specific variables down to prerequisites)']}
+                      'link (executable with link option)', 'build_step (list-form command)', 'link with a project static library and a global link option', 'whole build.ninja (file-scope variable order) for a compile edge with global include dir/option', 'pairs of copy_file steps (copy/symlink/hardlink; source-tree or generated input) sharing one rule/define per mode', 'compile edge built as a prerequisite of an edge with its own options (Make hands target-specific variables down to prerequisites)']}
 
 
 def obligations(tier, kf):
@@ -45,6 +45,8 @@ def obligations(tier, kf):
         obs.append(Ob(fn, {'N': 1}, 200).twin())
     w = Ob('w_whole_file', {}, 900, desc='complete build.ninja from the real writer, file-scope evaluation order')
     obs += [w, w.twin(), w.mutant('ninja_srcdir_after_flags')]
+    y = Ob('y_copy', {}, 900, desc='two copy_file steps, 3 modes x 2 source kinds each (36 shapes)')
+    obs += [y, y.twin(), y.mutant('ninja_copy_input_per_step')]
     obs.append(Ob('p_prereq', {'N': 1}, 600).mutant('make_flags_vars_global'))
     obs.append(Ob('c_compile', {'N': 1}, 600).mutant('compdb_drops_target_options'))
     obs.append(Ob('c_compile', {'N': 1}, 600).mutant('ninja_no_dollar'))
